@@ -294,9 +294,13 @@ def undId (E : ExpLog) (U : UnderlyingT) (p : Path) : Val :=
     match p.jrows[k - 1]?, as[k - 1]? with
     | some r, some a => .time (defaultTimeRow a p.times (r.map E.log))
     | _, _ => .err
-  -- `NthDefaultTimes.value` calls `_DefaultTimes.value`, whose `self._value_log` dispatches back to
-  -- `NthDefaultTimes._value_log`; the scalar it returns is then indexed again: IndexError / ValueError, always
-  | .nthDefault _ _ => .err
+  -- `NthDefaultTimes.value`: `_DefaultTimes.value` takes logs of the jump path and calls `_DefaultTimes._value_log`
+  -- explicitly (6ac83d2), then the (k+1)-th smallest of the individual default times
+  | .nthDefault as k =>
+    if p.flat then .err else
+    if p.jrows.length = as.length then
+      timeVal (kthSmallest (List.zipWith (fun r a => defaultTimeRow a p.times (r.map E.log)) p.jrows as) (k - 1))
+    else .err
 
 /-- `_value_log` (LOG representation: the path holds log-spot values) -/
 def undLog (E : ExpLog) (U : UnderlyingT) (p : Path) : Val :=
@@ -435,6 +439,13 @@ def runOld (E : ExpLog) (T : Terms) (ops : List Op) (s : Obj) : Obj := ops.foldl
 def valueOnOld (E : ExpLog) (T : Terms) (s : Obj) (p : Path) : Val :=
   let r := stepOld E T s (.uv p)
   if outVal r.2 = .err then .err else outVal (stepOld E T r.1 (.call (outVal r.2))).2
+
+/-- before 6ac83d2: `_DefaultTimes.value` called `self._value_log`, which for `NthDefaultTimes` dispatched back to the
+subclass and returned the already reduced scalar; indexing it again raised IndexError / ValueError on every path -/
+def undIdOld (E : ExpLog) (U : UnderlyingT) (p : Path) : Val :=
+  match U with
+  | .nthDefault _ _ => .err
+  | U => undId E U p
 
 /-- a rational strictly increasing bijection ℚ → ℚ_{>0} with its inverse: shows that the hypotheses made of the
 abstract pair are satisfiable, and serves the literal negation witnesses -/
